@@ -1199,8 +1199,29 @@ def search(res, rng, disagreements, pfail):
   return found
 
 
+def replay(path):
+  """./check C04 --replay FILE: re-evaluates the property's oracle on the failing input stored in FILE."""
+  common.load_pytype()
+  inp = json.load(open(path)).get("input", {})
+  still = None
+  if "program" in inp and "config_a" in inp:
+    chunks = [inp["program"]]
+    d = matrix_differs(chunks, inp["config_a"], inp["config_b"], repeats=3)
+    still = None if d is None else {"output": d["output"], "first_diff": d["diff"]}
+  elif "errors_added_in_this_order" in inp:
+    still = errors_oracle(inp["errors_added_in_this_order"], random.Random(3))
+  if still:
+    print("replayed input still fails: %s" % (json.dumps(still)[:600],))
+    print("VIOLATION property=C04 replay=%s" % path)
+    return 1
+  print("REPLAY-OK property=C04 the stored input no longer fails (%s)" % path)
+  return 0
+
+
 def main():
   try:
+    if os.environ.get("VERIF_REPLAY"):
+      return replay(os.environ["VERIF_REPLAY"])
     return _main()
   except (RuntimeError, OSError, subprocess.SubprocessError) as e:   # infrastructure trouble is never a VIOLATION
     print("ERROR property=C04 infrastructure: %s" % (str(e)[:500],))
